@@ -102,7 +102,9 @@ class World:
         usr = [(4, 0, 0, 0), (4, S.ERR["OBJ_READ"], S.ERR["OBJ_WRITE"], 0), (2, S.ERR["OBJ_RANGE"], S.ERR["OBJ_RANGE"], 0),
                (4, S.ERR["OBJ_MAP_TYPE"], S.ERR["OBJ_MAP_TYPE"], 0), (4, S.ERR["OBJ_MAP_LEN"], S.ERR["OBJ_MAP_LEN"], 0),
                (4, S.ERR["OBJ_INCOMPATIBLE"], S.ERR["OBJ_INCOMPATIBLE"], 0), (4, S.ERR["OBJ_ACC"], S.ERR["OBJ_ACC"], 0),
-               (1, S.ERR["TYPE_RD"], S.ERR["TYPE_WR"], 0x06090032), (4, S.ERR["TYPE_RD"], S.ERR["TYPE_WR"], 0x08000021)]
+               (1, S.ERR["TYPE_RD"], S.ERR["TYPE_WR"], 0x06090032), (4, S.ERR["TYPE_RD"], S.ERR["TYPE_WR"], 0x08000021),
+               # objects larger than 4 bytes whose type refuses the access (locked by the application)
+               (6, S.ERR["OBJ_READ"], S.ERR["OBJ_WRITE"], 0), (6, 0, S.ERR["OBJ_ACC"], 0), (6, S.ERR["TYPE_RD"], 0, 0)]
         for i, u in enumerate(usr):
             cfg.add(Obj(0x2130, i, RW, "usr", "U", u[0], u[1], u[2], "%x" % u[3], 0x11223344))
             m[(0x2130, i)] = OM(0x2130, i, "usr", RW, usr=u)
